@@ -737,6 +737,11 @@ func writeEvidence(prop, tier string, seed int, reports []*harnessReport, funcs 
 	os.MkdirAll(filepath.Join(verifRoot, "evidence"), 0o755)
 	raw, _ := json.MarshalIndent(ev, "", " ")
 	os.WriteFile(filepath.Join(verifRoot, "evidence", prop+".json"), raw, 0o644)
+	if tier == "thorough" {
+		// evidence/<id>.json always describes the LAST run; the last thorough run is kept as well
+		os.MkdirAll(filepath.Join(verifRoot, "evidence_thorough"), 0o755)
+		os.WriteFile(filepath.Join(verifRoot, "evidence_thorough", prop+".json"), raw, 0o644)
+	}
 }
 
 var _ = ssa.InstantiateGenerics
